@@ -32,7 +32,9 @@ NSORT = {"quick": 60000, "thorough": 600000}
 NVER = {"quick": 6000, "thorough": 200000}
 BAD_LABELS = ["dev", "pre", "RC", "Alpha", "BETA", "rc1", "alpha1", "a", "", "name", "value", "__doc__", "mro",
               "_member_map_", "__members__", "__class__", "release", "final", "snapshot", "r c", "rc ", " rc", "αlpha",
-              "alpha_", "gamma", "0x1"]
+              "alpha_", "gamma", "0x1",
+              # not labels and not numbers of the grammar either (digits only), although int() would take them
+              "1_0", "+5", " 5", "5 ", "+0", "0_0", "\t1", "1\n", "-1", "1e1"]
 
 
 def shards(tier):
